@@ -3,7 +3,8 @@ MBFBig.tla (MBF decode), trace spec C04_Trace (the stated bounds, evaluated with
 import os, time
 from ..session import Sess
 from .. import core
-from ..bigval import validate_parallel
+from ..bigval import validate_parallel, mbf_bytes
+from fractions import Fraction
 
 LEVEL = 'exploration'
 META = {
@@ -127,20 +128,16 @@ def gen_pair(rng, op):
         if rng.random() < 0.5:
             return 'zero', _num(rng, na), zero(nb)
         return 'zero', zero(na), _num(rng, nb)
-    # small integers and simple fractions (exactly representable results)
+    # small integers and simple decimal fractions
     def small(n):
-        v = rng.choice((1, 2, 3, 5, 7, 10, 100, 1000, 0.5, 0.25, 0.1, 1e-3, 12345, 16777215, 1e7, 1e-7, 1.5e38, 1e-38, 3e-39))
-        from pcbasic.basic.values import numbers
-        x = (numbers.Single if n == 4 else numbers.Double)(None, _VALUES).from_value(v * rng.choice((1, -1)))
-        return list(x.to_bytes())
+        v = rng.choice((1, 2, 3, 5, 7, 10, 100, 1000, Fraction(1, 2), Fraction(1, 4), Fraction(1, 10), Fraction(1, 1000), 12345,
+                        16777215, 10 ** 7, Fraction(1, 10 ** 7), 15 * Fraction(10) ** 37, Fraction(1, 10 ** 38),
+                        3 * Fraction(1, 10 ** 39)))
+        return mbf_bytes(v * rng.choice((1, -1)), n)
     return 'simple', small(na), small(nb)
 
 
-_VALUES = None
-
-
 def run(ctx):
-    global _VALUES
     ctx.cov['rule'] = ('one event per call r = a op b of the real interpreter, judged by TLC with exact arithmetic (C04_Trace); '
                        'distinct = distinct (op, a bytes, b bytes, handler mode); non-trivial = events whose operands are both '
                        'non-zero (a zero operand makes the exact result trivial)')
@@ -159,7 +156,6 @@ def run(ctx):
     s = Sess()
     from pcbasic.basic.values import values as V, numbers as N
     vals = s.impl.values
-    _VALUES = vals
     handler = vals.error_handler
     rng = ctx.rng
     fn = {'add': V.add, 'sub': V.sub, 'mul': V.mul, 'div': V.div}
